@@ -297,12 +297,12 @@ static std::string pregrow_line()
 }
 
 // ---- UBSan reports (the asan variant is built with -fsanitize-recover=undefined, so the decision is made here):
-//      a report whose (check kind, source file, line) is a recorded known finding is counted and the execution
-//      continues; every other report is fatal.  UBSan itself reports a source location once per process, so the
+//      a report whose (check kind, source file, enclosing function) is a recorded known finding is counted and the
+//      execution continues; every other report is fatal (line numbers are not used: they move with every commit).  UBSan itself reports a source location once per process, so the
 //      counters count processes (campaign segments / runner batches) in which the site was reached.
 //      C08_NO_KNOWN_FILTER=1 (strict replays) makes every report fatal; C08_UB_COLLECT=1 (triage runs only)
 //      lets every report of an integer-conversion/overflow/index kind continue and counts it as ub_site_*.
-struct UbSite { const char *kind, *file; unsigned line; const char *name; };
+struct UbSite { const char *kind, *file, *func; const char *name; };   // file: base name or "*"; func: substring of the demangled function name or of the report text (enum type)
 static const UbSite KNOWN_UB[] = {
 #include "c08_known_ub.inc"
 	{0, 0, 0, 0}
@@ -606,6 +606,26 @@ static void periodic()
 
 extern "C" void __ubsan_get_current_report_data(const char **kind, const char **msg, const char **file, unsigned *line, unsigned *col, char **addr);
 extern "C" void __sanitizer_print_stack_trace(void);
+extern "C" void __sanitizer_symbolize_pc(void *pc, const char *fmt, char *out_buf, size_t out_buf_size);
+#include <execinfo.h>
+
+// demangled name of the innermost library (or shim) function on the stack, i.e. the function the report is about
+static std::string c08_report_function()
+{
+	void *pcs[16];
+	int n = backtrace(pcs, 16);
+	for (int i = 1; i < n; i++) {
+		char buf[1024];
+		buf[0] = 0;
+		__sanitizer_symbolize_pc(pcs[i], "%f|%s", buf, sizeof buf);
+		const char *bar = strchr(buf, '|');
+		if (!bar) continue;
+		if (strstr(bar, "/src/") == 0) continue;          // runtime frames (ubsan handlers) and system headers have no /src/ path
+		return std::string(buf, bar - buf);
+	}
+	return "?";
+}
+
 extern "C" void __ubsan_on_report(void)
 {
 	const char *kind = 0, *msg = 0, *file = 0;
@@ -615,20 +635,22 @@ extern "C" void __ubsan_on_report(void)
 	if (!kind) kind = "?";
 	if (!file) file = "?";
 	const char *bn = c08::base_name(file);
+	std::string fn = c08_report_function();
 	if (!c08::g_no_known_filter) {
 		for (const c08::UbSite *u = c08::KNOWN_UB; u->kind; u++)
-			if (u->line == line && strcmp(u->kind, kind) == 0 && strcmp(u->file, bn) == 0) {
+			if (strcmp(u->kind, kind) == 0 && (strcmp(u->file, "*") == 0 || strcmp(u->file, bn) == 0) &&
+			    (fn.find(u->func) != std::string::npos || (msg && strstr(msg, u->func)))) {
 				c08::g_cnt[std::string("known_ub_") + u->name]++;
 				return;
 			}
 	}
-	if (c08::g_ub_collect && (strcmp(kind, "float-cast-overflow") == 0 || strcmp(kind, "signed-integer-overflow") == 0 || strcmp(kind, "out-of-bounds-index") == 0)) {
-		char b[300];
+	if (c08::g_ub_collect && (strcmp(kind, "float-cast-overflow") == 0 || strcmp(kind, "signed-integer-overflow") == 0 || strcmp(kind, "out-of-bounds-index") == 0 || strcmp(kind, "invalid-enum-load") == 0)) {
+		char b[400];
 		snprintf(b, sizeof b, "ub_site_%s:%s:%u", kind, bn, line);
 		c08::g_cnt[b]++;
 		return;
 	}
-	fprintf(stderr, "\nC08-UBSAN: %s: %s:%u:%u: %s\n", kind, file, line, col, msg ? msg : "");
+	fprintf(stderr, "\nC08-UBSAN: %s: %s:%u:%u: %s [in %s]\n", kind, file, line, col, msg ? msg : "", fn.c_str());
 	__sanitizer_print_stack_trace();
 	fflush(stderr);
 	c08::g_cnt["trap_ubsan"]++;
